@@ -25,6 +25,7 @@ def observe(V):
         coplanar=[list(map(int, s)) for s in p._coplanar_simplices],
         vertices=np.array(p.vertices, float),
     )
+    obs["face_area_forms"] = C.face_area_forms(p, obs["face_areas"])
     return obs
 
 
@@ -70,6 +71,8 @@ def judge(chk, tag, V, obs, code, spec, fc_specs):
         fails.append(("face_areas", "length mismatch"))
     if abs(sum(obs["face_areas"]) - area_exact) > RTOL * R ** 2:
         fails.append(("face_areas", "face areas do not sum to the surface area"))
+    for prob in obs.get("face_area_forms", []):
+        fails.append(("get_face_area-call-forms", prob))
     # face centroids against the exact centroid of the facet
     for k, fc in enumerate(fc_specs):
         if fc is None:
